@@ -265,4 +265,344 @@ theorem setSlotH_spec {h : Heap} {rank : Addr → Nat} (hr : h.RankedBy rank) (h
           rw [hsame]
           exact ⟨w, ys, ys', .step hga (by simpa [Cell.kids] using hmem) hrw, hgw, hgw', hkids, hframe⟩
 
+/-! ## 3. the attaching calls satisfy `AttachSpec` -/
+
+theorem mem_kids_insert {kvs : AMap Addr} {name : String} {v k : Addr}
+    (hk : k ∈ (Cell.cont (AMap.insert kvs name v)).kids) : k = v ∨ k ∈ (Cell.cont kvs).kids := by
+  simp only [Cell.kids, List.mem_map] at hk ⊢
+  obtain ⟨p, hp, rfl⟩ := hk
+  rcases Ytk.AMap.mem_insert hp with rfl | hp
+  · exact Or.inl rfl
+  · exact Or.inr ⟨p, hp, rfl⟩
+
+/-- `add(name, v)` / `AddValue`: one existing cell is written — the receiver, or (for a name with
+    index groups whose lists exist) the deepest reused list -/
+theorem addH_spec {h h' : Heap} {rank : Addr → Nat} (hr : h.RankedBy rank) (hn : h.NilOk) (hm : h.MapsOk)
+    {c v : Addr} {name : String} (he : addH h c name v = some h') : ∃ w, AttachSpec h c v w h' := by
+  unfold addH at he
+  split at he
+  case h_2 => cases he
+  rename_i kvs hg
+  have hclt := get?_lt hg
+  cases hp : parseSeg name with
+  | mk b is =>
+  simp only [hp] at he
+  cases is with
+  | nil =>
+    simp only [Option.some.injEq] at he
+    subst he
+    refine ⟨c, (by rw [size_write]; exact Nat.le_refl _), .refl _, fun a _ hne => get?_write_ne h _ hne, ?_, ?_⟩
+    · refine ⟨_, _, hg, get?_write_self h _ hclt, rfl, rfl, rfl, ?_, ?_⟩
+      · intro k hk
+        rcases mem_kids_insert hk with hk | hk
+        · exact Or.inr (Or.inr (Or.inl hk))
+        · exact Or.inl hk
+      · intro k1 k2 e1 e2 hs
+        cases e1; cases e2
+        exact AMap.sorted_insert hs _ _
+    · intro a cell ha hga
+      have := get?_lt hga
+      rw [size_write] at this
+      exact absurd this (Nat.not_lt.mpr ha)
+  | cons i is' =>
+    have spec := setSlotH_spec hr hn v (i :: is') (AMap.get? kvs b)
+    generalize setSlotH h (AMap.get? kvs b) (i :: is') v = res at spec he
+    obtain ⟨h1, r⟩ := res
+    simp only [Option.some.injEq] at he spec
+    subst he
+    have hc1 : c < h1.size := Nat.lt_of_lt_of_le hclt spec.size_le
+    cases hl : listAt h (AMap.get? kvs b) with
+    | none =>
+      obtain ⟨hfr, hrf⟩ := spec.notList hl
+      have hrf := hrf (by simp)
+      refine ⟨c, (by rw [size_write]; exact spec.size_le), .refl _, ?_, ?_, spec.fresh.write_old _ hclt⟩
+      · intro a ha hne
+        rw [get?_write_ne _ _ hne]; exact hfr a ha
+      · refine ⟨_, _, hg, get?_write_self h1 _ hc1, rfl, rfl, rfl, ?_, ?_⟩
+        · intro k hk
+          rcases mem_kids_insert hk with hk | hk
+          · subst hk
+            exact Or.inr (Or.inr (Or.inr ⟨hrf.1, by rw [size_write]; exact hrf.2⟩))
+          · exact Or.inl hk
+        · intro k1 k2 e1 e2 hs
+          cases e1; cases e2
+          exact AMap.sorted_insert hs _ _
+    | some q =>
+      obtain ⟨a, xs⟩ := q
+      obtain ⟨hra, w, ys, ys', hrw, hgw, hgw', hkids, hframe⟩ := spec.isList a xs hl (by simp)
+      obtain ⟨hget, hga⟩ := listAt_some hl
+      subst hra
+      have hwc : w ≠ c := not_reach_parent hr hg (mem_kids_of_get? hget) hrw
+      rw [Ytk.insert_put_back (hm c kvs hg) hget]
+      have hsame : h1.write c (.cont kvs) = h1 := write_same (by rw [hframe c hclt (Ne.symm hwc)]; exact hg)
+      rw [hsame]
+      refine ⟨w, spec.size_le, .step hg (mem_kids_of_get? hget) hrw, hframe, ?_, spec.fresh⟩
+      refine ⟨_, _, hgw, hgw', rfl, rfl, rfl, ?_, ?_⟩
+      · intro k hk
+        exact hkids k (by simpa [Cell.kids] using hk)
+      · intro k1 k2 e1; cases e1
+
+/-- a heap that is at least as large and agrees on every old cell is an extension -/
+theorem le_of_frame {h h' : Heap} (hs : h.size ≤ h'.size) (hf : ∀ a, a < h.size → h'.get? a = h.get? a) :
+    h ≤ h' := by
+  refine ⟨h'.cells.drop h.size, ?_⟩
+  apply List.ext_getElem?
+  intro a
+  by_cases ha : a < h.size
+  · rw [List.getElem?_append_left (by simpa [Heap.size] using ha)]
+    exact hf a ha
+  · have hle : h.cells.length ≤ a := by simpa [Heap.size] using Nat.le_of_not_lt ha
+    rw [List.getElem?_append_right hle, List.getElem?_drop]
+    congr 1
+    simp only [Heap.size] at ha ⊢
+    omega
+
+theorem FreshKids.trans {n0 : Nat} {v r : Addr} {h1 h2 : Heap} (h1f : FreshKids n0 v h1)
+    (hfr : ∀ a, n0 ≤ a → a < h1.size → h2.get? a = h1.get? a) (h2f : FreshKids h1.size r h2)
+    (hr : (n0 ≤ r ∧ r < h1.size) ∨ r = v ∨ r = nilAddr) (hn : n0 ≤ h1.size) : FreshKids n0 v h2 := by
+  intro a cell ha hg
+  by_cases halt : a < h1.size
+  · rw [hfr a ha halt] at hg
+    exact h1f a cell ha hg
+  · have hge : h1.size ≤ a := Nat.le_of_not_lt halt
+    obtain ⟨hk, hs⟩ := h2f a cell hge hg
+    refine ⟨fun k hkm => ?_, hs⟩
+    rcases hk k hkm with ⟨h1k, h2k⟩ | rfl | rfl
+    · exact Or.inl ⟨Nat.le_trans hn h1k, h2k⟩
+    · rcases hr with ⟨hr1, hr2⟩ | hr | hr
+      · exact Or.inl ⟨hr1, Nat.lt_of_lt_of_le hr2 hge⟩
+      · exact Or.inr (Or.inl hr)
+      · exact Or.inr (Or.inr hr)
+    · exact Or.inr (Or.inr rfl)
+
+/-- new cells that only point to older new cells, `v` and the nil leaf keep the heap ranked -/
+theorem rankedBy_extend {h h1 : Heap} {rank : Addr → Nat} {v : Addr} (hl : h ≤ h1) (hc : h.Closed)
+    (hr : h.RankedBy rank) (hf : FreshKids h.size v h1) (hv : v < h.size) (hpos : 0 < h.size) :
+    ∃ rank1, h1.RankedBy rank1 := by
+  refine ⟨fun a => if h.size ≤ a then rank v + rank nilAddr + 1 + a else rank a, ?_⟩
+  intro a cell hg k hk
+  by_cases ha : h.size ≤ a
+  · simp only [if_pos ha]
+    rcases (hf a cell ha hg).1 k hk with ⟨h1k, h2k⟩ | rfl | rfl
+    · simp only [if_pos h1k]
+      have h2k : @LT.lt Nat _ k a := h2k
+      omega
+    · simp only [if_neg (Nat.not_le.mpr hv)]; omega
+    · have h0 : ¬ h.size ≤ nilAddr := by simp only [nilAddr]; omega
+      simp only [if_neg h0]; omega
+  · have halt : a < h.size := Nat.lt_of_not_le ha
+    rw [get?_eq_of_le hl halt] at hg
+    have hklt := hc a cell hg k hk
+    simp only [if_neg ha, if_neg (Nat.not_le.mpr hklt)]
+    exact hr a cell hg k hk
+
+theorem mapsOk_extend {h h1 : Heap} {v : Addr} (hl : h ≤ h1) (hm : h.MapsOk) (hf : FreshKids h.size v h1) :
+    h1.MapsOk := by
+  intro a kvs hg
+  by_cases ha : a < h.size
+  · rw [get?_eq_of_le hl ha] at hg
+    exact hm a kvs hg
+  · exact (hf a _ (Nat.le_of_not_lt ha) hg).2 kvs rfl
+
+theorem closed_extend {h h1 : Heap} {v : Addr} (hl : h ≤ h1) (hc : h.Closed) (hf : FreshKids h.size v h1)
+    (hv : v < h.size) (hpos : 0 < h.size) : h1.Closed := by
+  intro a cell hg k hk
+  have hsz := size_le_of_le hl
+  by_cases ha : a < h.size
+  · rw [get?_eq_of_le hl ha] at hg
+    exact Nat.lt_of_lt_of_le (hc a cell hg k hk) hsz
+  · rcases (hf a cell (Nat.le_of_not_lt ha) hg).1 k hk with ⟨_, h2k⟩ | rfl | rfl
+    · exact Nat.lt_trans h2k (get?_lt hg)
+    · exact Nat.lt_of_lt_of_le hv hsz
+    · exact Nat.lt_of_lt_of_le hpos hsz
+
+/-- the new containers below the last existing one: only allocations; the result is new -/
+theorem spineH_spec {h : Heap} {rank : Addr → Nat} (hc : h.Closed) (hr : h.RankedBy rank) (hn : h.NilOk)
+    {v : Addr} (hv : v < h.size) :
+    ∀ (segs : List String), h ≤ (spineH h segs v).1 ∧ FreshKids h.size v (spineH h segs v).1 ∧
+      (segs = [] → (spineH h segs v) = (h, v)) ∧
+      (segs ≠ [] → h.size ≤ (spineH h segs v).2 ∧ (spineH h segs v).2 < (spineH h segs v).1.size)
+  | [] => by
+    simp only [spineH]
+    exact ⟨le_refl _, freshKids_self h v, fun _ => trivial, fun hne => absurd rfl hne⟩
+  | p :: rest => by
+    obtain ⟨hl, hf, hnil, hne⟩ := spineH_spec hc hr hn hv rest
+    simp only [spineH]
+    generalize spineH h rest v = res at hl hf hnil hne
+    obtain ⟨h1, r⟩ := res
+    simp only at hl hf hnil hne ⊢
+    have hrr : (h.size ≤ r ∧ r < h1.size) ∨ r = v ∨ r = nilAddr := by
+      by_cases hrest : rest = []
+      · have := hnil hrest
+        simp only [Prod.mk.injEq] at this
+        exact Or.inr (Or.inl this.2)
+      · exact Or.inl (hne hrest)
+    have hsz := size_le_of_le hl
+    cases hp : parseSeg p with
+    | mk b is =>
+    cases is with
+    | nil =>
+      simp only
+      refine ⟨le_trans hl (le_alloc _ _), ?_, (fun hc => by cases hc), fun _ => ?_⟩
+      · apply hf.alloc hsz
+        · intro k hk
+          simp only [Cell.kids, List.map_cons, List.map_nil, List.mem_singleton] at hk
+          subst hk; exact hrr
+        · intro kvs hk; cases hk
+          exact .cons (fun q hq => by cases hq) .nil
+      · rw [alloc_snd, size_alloc]; exact ⟨hsz, Nat.lt_succ_self _⟩
+    | cons i is' =>
+      simp only
+      -- the lists of the index groups, all new (the new container is empty)
+      have hpos : 0 < h.size := get?_lt hn
+      obtain ⟨rank1, hr1⟩ := rankedBy_extend hl hc hr hf hv hpos
+      have spec := setSlotH_spec hr1 (nilOk_mono hn hl) r (i :: is') none
+      generalize setSlotH h1 none (i :: is') r = res2 at spec
+      obtain ⟨h2, r2⟩ := res2
+      simp only at spec ⊢
+      obtain ⟨hfr, hr2⟩ := spec.notList rfl
+      have hr2 := hr2 (by simp)
+      have hl2 : h1 ≤ h2 := le_of_frame spec.size_le hfr
+      have hf2 : FreshKids h.size v h2 := hf.trans (fun a _ ha => hfr a ha) spec.fresh hrr hsz
+      refine ⟨le_trans hl (le_trans hl2 (le_alloc _ _)), ?_, (fun hc => by cases hc), fun _ => ?_⟩
+      · apply hf2.alloc (Nat.le_trans hsz spec.size_le)
+        · intro k hk
+          simp only [Cell.kids, List.map_cons, List.map_nil, List.mem_singleton] at hk
+          subst hk; exact Or.inl ⟨Nat.le_trans hsz hr2.1, hr2.2⟩
+        · intro kvs hk; cases hk
+          exact .cons (fun q hq => by cases hq) .nil
+      · rw [alloc_snd, size_alloc]; exact ⟨Nat.le_trans hsz spec.size_le, Nat.lt_succ_self _⟩
+
+theorem walkIdxH_reach {h : Heap} : ∀ (is : List Nat) (a x : Addr), walkIdxH h (some a) is = some x → Reach h a x
+  | [], a, x, hw => by
+    simp only [walkIdxH, Option.some.injEq] at hw; subst hw; exact .refl _
+  | i :: is, a, x, hw => by
+    simp only [walkIdxH] at hw
+    split at hw
+    · rename_i xs hg
+      cases hx : xs[i]? with
+      | none => rw [hx] at hw; cases is <;> simp [walkIdxH] at hw
+      | some k =>
+        rw [hx] at hw
+        exact .step hg (by simpa [Cell.kids] using List.mem_of_getElem? hx) (walkIdxH_reach is k x hw)
+    · cases hw
+
+theorem childH_reach {h : Heap} {c x : Addr} {name : String} (hch : childH h c name = some x) : Reach h c x := by
+  unfold childH at hch
+  split at hch
+  case h_2 => cases hch
+  rename_i kvs hg
+  unfold childKvs at hch
+  cases hp : parseSeg name with
+  | mk b is =>
+  simp only [hp] at hch
+  cases is with
+  | nil => exact .step hg (mem_kids_of_get? hch) (.refl _)
+  | cons i is' =>
+    simp only at hch
+    cases hb : AMap.get? kvs b with
+    | none => rw [hb] at hch; simp [walkIdxH] at hch
+    | some a =>
+      rw [hb] at hch
+      exact .step hg (mem_kids_of_get? hb) (walkIdxH_reach _ a x hch)
+
+theorem contChildH_some {h : Heap} {c x : Addr} {p : String} (hcc : contChildH h c p = some x) :
+    childH h c p = some x ∧ ∃ kvs, h.get? x = some (.cont kvs) := by
+  unfold contChildH at hcc
+  split at hcc
+  · rename_i y hy
+    split at hcc
+    · rename_i kvs hg
+      simp only [Option.some.injEq] at hcc; subst hcc
+      exact ⟨hy, kvs, hg⟩
+    · cases hcc
+  · cases hcc
+
+/-- `AddValueAt`: exactly one existing cell is written — the last existing container on the path
+    (or the deepest reused list of its last component); everything else that is new is allocated -/
+theorem addAtSegsH_spec {h : Heap} {rank : Addr → Nat} (hc : h.Closed) (hr : h.RankedBy rank) (hn : h.NilOk)
+    (hm : h.MapsOk) {v : Addr} (hv : v < h.size) :
+    ∀ (segs : List String) (c : Addr) (h' : Heap), segs ≠ [] → c < h.size → addAtSegsH h c segs v = some h' →
+      ∃ w, AttachSpec h c v w h'
+  | [], _, _, hne, _, _ => absurd rfl hne
+  | [s], c, h', _, _, he => by
+    simp only [addAtSegsH] at he
+    exact addH_spec hr hn hm he
+  | s :: t :: rest, c, h', _, hclt, he => by
+    simp only [addAtSegsH] at he
+    cases hcc : contChildH h c s with
+    | some x =>
+      simp only [hcc] at he
+      obtain ⟨hch, kvs, hgx⟩ := contChildH_some hcc
+      obtain ⟨w, spec⟩ := addAtSegsH_spec hc hr hn hm hv (t :: rest) x h' (by simp) (get?_lt hgx) he
+      exact ⟨w, { spec with reach_w := (childH_reach hch).trans spec.reach_w }⟩
+    | none =>
+      simp only [hcc] at he
+      obtain ⟨hl, hf, _, hne⟩ := spineH_spec hc hr hn hv (t :: rest)
+      generalize spineH h (t :: rest) v = res at hl hf hne he
+      obtain ⟨h1, r⟩ := res
+      simp only at hl hf hne he
+      have hrf := hne (by simp)
+      have hpos : 0 < h.size := get?_lt hn
+      have hsz := size_le_of_le hl
+      obtain ⟨rank1, hr1⟩ := rankedBy_extend hl hc hr hf hv hpos
+      obtain ⟨w, spec⟩ := addH_spec hr1 (nilOk_mono hn hl) (mapsOk_extend hl hm hf) he
+      have hrw : Reach h c w := reach_of_le hl hc spec.reach_w hclt
+      have hwlt : w < h.size := reach_lt hc hrw hclt
+      refine ⟨w, Nat.le_trans hsz spec.size_le, hrw, ?_, ?_, ?_⟩
+      · intro a ha hne
+        rw [spec.frame a (Nat.lt_of_lt_of_le ha hsz) hne, get?_eq_of_le hl ha]
+      · obtain ⟨cw, cw', h1w, h2w, k1, k2, k3, hk, hs⟩ := spec.written
+        refine ⟨cw, cw', by rw [← get?_eq_of_le hl hwlt]; exact h1w, h2w, k1, k2, k3, ?_, hs⟩
+        intro k hkm
+        rcases hk k hkm with hk | hk | hk | hk
+        · exact Or.inl hk
+        · exact Or.inr (Or.inl hk)
+        · subst hk
+          exact Or.inr (Or.inr (Or.inr ⟨hrf.1, Nat.lt_of_lt_of_le hrf.2 spec.size_le⟩))
+        · exact Or.inr (Or.inr (Or.inr ⟨Nat.le_trans hsz hk.1, hk.2⟩))
+      · exact hf.trans (fun a ha halt => spec.frame a halt (Nat.ne_of_gt (Nat.lt_of_lt_of_le hwlt ha)))
+          spec.fresh (Or.inl hrf) hsz
+
+theorem rankedBy_alloc_empty {h : Heap} {rank : Addr → Nat} (hr : h.RankedBy rank) {c0 : Cell} (hk : c0.kids = []) :
+    (h.alloc c0).1.RankedBy rank := by
+  intro a cell hg k hkm
+  rcases get?_alloc hg with ⟨_, hg'⟩ | ⟨_, rfl⟩
+  · exact hr a cell hg' k hkm
+  · rw [hk] at hkm; cases hkm
+
+theorem mapsOk_alloc {h : Heap} (hm : h.MapsOk) {c0 : Cell} (hs : ∀ kvs, c0 = .cont kvs → AMap.Sorted kvs) :
+    (h.alloc c0).1.MapsOk := by
+  intro a kvs hg
+  rcases get?_alloc hg with ⟨_, hg'⟩ | ⟨_, he⟩
+  · exact hm a kvs hg'
+  · exact hs kvs he.symm
+
+/-- `AddContainer` / `AddList`: the returned node is a NEW empty cell, attached by `add` -/
+theorem addContainerH_spec {h h2 : Heap} {rank : Addr → Nat} (hr : h.RankedBy rank) (hn : h.NilOk) (hm : h.MapsOk)
+    {c b : Addr} {name : String} (he : addContainerH h c name = some (h2, b)) :
+    b = h.size ∧ ∃ w, AttachSpec (h.alloc (.cont [])).1 c b w h2 := by
+  unfold addContainerH at he
+  simp only at he
+  split at he
+  · rename_i h2' he'
+    simp only [Option.some.injEq, Prod.mk.injEq] at he
+    obtain ⟨rfl, rfl⟩ := he
+    exact ⟨rfl, addH_spec (rankedBy_alloc_empty hr rfl) (nilOk_mono hn (le_alloc _ _))
+      (mapsOk_alloc hm (fun kvs hk => by cases hk; exact .nil)) he'⟩
+  · cases he
+
+theorem addListH_spec {h h2 : Heap} {rank : Addr → Nat} (hr : h.RankedBy rank) (hn : h.NilOk) (hm : h.MapsOk)
+    {c b : Addr} {name : String} (he : addListH h c name = some (h2, b)) :
+    b = h.size ∧ ∃ w, AttachSpec (h.alloc (.list [])).1 c b w h2 := by
+  unfold addListH at he
+  simp only at he
+  split at he
+  · rename_i h2' he'
+    simp only [Option.some.injEq, Prod.mk.injEq] at he
+    obtain ⟨rfl, rfl⟩ := he
+    exact ⟨rfl, addH_spec (rankedBy_alloc_empty hr rfl) (nilOk_mono hn (le_alloc _ _))
+      (mapsOk_alloc hm (fun kvs hk => by cases hk)) he'⟩
+  · cases he
+
 end Ytk.Heap
